@@ -639,6 +639,20 @@ func extractCrash(c *harness.Ctx, i int) {
 	if inPlace {
 		args = append(args, "-k")
 	}
+	if i%3 == 1 {
+		// with a seed (an older version that shares the first half): whatever looking at the seed involves, the
+		// destination is not touched before the extract is complete
+		seedBlob := append(append([]byte(nil), blob[:len(blob)/2]...), dsu.MakeBlob(rng, "random", 3000, sz)...)
+		seedFile := filepath.Join(dir, "older-version")
+		dsu.WriteFile(seedFile, seedBlob)
+		seedIdx := filepath.Join(dir, "older-version.caibx")
+		dsu.Must(dsu.WriteIndex(seedIdx, dsu.RefIndex(seedBlob, sz)))
+		args = append(args, "--seed", seedIdx+":"+seedFile)
+		if k > int64(len(idx.Chunks))/3 {
+			k = 1 + k%3 // the seed supplies half of the chunks: only a few requests reach the store
+		}
+		c.Count("extract_crash_runs_with_a_seed", 1)
+	}
 	args = append(args, idxFile, dest)
 	cmd := exec.Command(cli, args...)
 	cmd.Env = append(os.Environ(), "HOME="+dir)
